@@ -378,6 +378,24 @@ static void run_wide(Json& js, vh::Rng& rng, long budget) {
             resid(js, "dot", (double)(fabsl((LD)dot(v, u) - dt) / (dta * EPS * n + 1e-320L)));
             resid(js, "rms", rerr(rms(v), sqrtl(s2 / n)) / (n / 4.0 + 1));
             resid(js, "norm", rerr(norm(v), sqrtl(s2)) / (n / 4.0 + 1));
+            {   // p-norms other than 2, real and complex, and the complex rms (short vectors too)
+                const int pn = (int)rng.range(1, 6), nz = (int)rng.range(1, 40);
+                const double bs = std::pow(10.0, -20 + 40 * rng.unif());
+                arr_real vr(nz);
+                arr_cmplx vz(nz);
+                LD sr = 0, sz = 0, s2z = 0;
+                for (int i = 0; i < nz; ++i) {
+                    vr[i] = bs * rng.gauss();
+                    vz[i] = cmplx_t(bs * rng.gauss(), bs * rng.gauss());
+                    sr += powl(fabsl((LD)vr[i]), pn);
+                    const LD az = sqrtl((LD)vz[i].re * vz[i].re + (LD)vz[i].im * vz[i].im);
+                    sz += powl(az, pn);
+                    s2z += az * az;
+                }
+                resid(js, "norm-p", rerr(norm(vr, pn), powl(sr, 1.0L / pn)) / (nz / 4.0 + 4));
+                resid(js, "norm-p-c", rerr(norm(vz, pn), powl(sz, 1.0L / pn)) / (nz / 4.0 + 4));
+                resid(js, "rms-c", rerr(rms(vz), sqrtl(s2z / nz)) / (nz / 4.0 + 2));
+            }
             if (n > 1) {
                 LD m = s / n, q = 0;
                 for (int i = 0; i < n; ++i) {
